@@ -19,6 +19,7 @@ import (
 	"encoding/json"
 	"fmt"
 	"io"
+	"math/big"
 
 	"shanhu.io/g/errcode"
 )
@@ -48,7 +49,13 @@ func encodeBasic(w io.Writer, v *basic) error {
 
 	switch v.token.Type {
 	case tokInt:
-		if err := writeString(w, v.token.Lit); err != nil {
+		// The literal follows Go's syntax (0x.. is hexadecimal, a leading 0
+		// is octal); JSON only has decimal integers.
+		n, ok := new(big.Int).SetString(v.token.Lit, 0)
+		if !ok {
+			return fmt.Errorf("invalid integer: %s", v.token.Lit)
+		}
+		if err := writeString(w, n.String()); err != nil {
 			return err
 		}
 	case tokFloat, tokString:
